@@ -32,7 +32,8 @@ LEVEL = "other"
 EXPLANATION = ("Lock-discipline premise checked by bounded symbolic model checking of the real transaction code under symbolic transport "
                "faults; the step from the premise to 'all interleavings are serialisable' is a stated reduction, not explored schedules. "
                "A race in code that does not pass through the monitored accesses would not be seen.")
-ASSUMPTIONS = ["reduction: lock discipline on all shared-state accesses + release on every exit => serialisability (paper argument; CPython RLock trusted)",
+ASSUMPTIONS = ["environment model of contention: the first lock acquire that may give up (non-blocking or timed) does give up; blocking acquires succeed",
+               "reduction: lock discipline on all shared-state accesses + release on every exit => serialisability (paper argument; CPython RLock trusted)",
                "client.state on entry to the first call is an arbitrary ModbusTransactionState value (what a concurrent thread may have left)",
                "monitored accesses: connect/send/recv/close of the transport, framer addToFrame/resetFrame/advanceFrame/processIncomingPacket, getNextTID, addTransaction, getTransaction",
                "ModbusTransactionState.to_string (log text) is replaced by a constant",
@@ -57,9 +58,16 @@ class MonLock(object):
 
     def __init__(self, real):
         self.real, self.depth, self.sections = real, 0, 0
+        # contention model: the FIRST acquire that is allowed to give up (non-blocking, or with a time-out) gives up, as
+        # it may whenever another caller holds the lock for long enough; blocking acquires always succeed. Code that
+        # goes on to use the transport after a failed acquire is then seen using it with no lock owned.
+        self.giveups_left = 1
 
-    def acquire(self, *a, **k):
-        got = self.real.acquire(*a, **k)
+    def acquire(self, blocking=True, timeout=-1):
+        if self.depth == 0 and self.giveups_left > 0 and (not blocking or (timeout is not None and timeout >= 0)):
+            self.giveups_left -= 1
+            return False
+        got = self.real.acquire(blocking, timeout)
         if got:
             if self.depth == 0:
                 self.sections += 1
@@ -349,7 +357,7 @@ def lock_realtcp(v: bytes, extra: bytes, n_extra: int, u: int) -> bool:
 
 def obligations(tier):
     from harness import kernels
-    T = 300 if tier == "quick" else 1500
+    T = 480 if tier == "quick" else 1500
     out = [kernels.K1(tier), kernels.K2(tier)]
     contracts = {"tcp": (), "rtu": ("crc",), "binary": ("crc",), "ascii": ("lrc",)}
     lem = {"tcp": (), "rtu": ("K1",), "binary": ("K1",), "ascii": ("K2",)}
